@@ -67,7 +67,7 @@ func vh_C06_L3_transmission_count() {
 	onWire := 0
 	fwd := false
 	for round := 0; round < 7; round++ {
-		for _, raw := range vWriterPass(a) { // every packet is lost
+		for _, raw := range vWriterWake(a) { // every packet is lost
 			p := vDecode(raw)
 			for _, c := range p.chunks {
 				switch x := c.(type) {
@@ -119,7 +119,7 @@ func vh_C06_L2_abandoned_never_resent() {
 	a.t3RTX.start(1000)
 	vassert(vFireRtx(a, a.t3RTX), "T3 expires")
 	a.rwnd = nondetU32() // whatever the peer's window is
-	pkts := vWriterPass(a)
+	pkts := vWriterWake(a)
 	var resent [3]bool
 	for _, raw := range pkts {
 		p := vDecode(raw)
@@ -163,7 +163,7 @@ func vh_C06_L3_fragmented_partly_in_flight() {
 	first := a.myNextTSN
 	onWire := 0
 	for round := 0; round < 5; round++ {
-		for _, raw := range vWriterPass(a) { // every packet is lost
+		for _, raw := range vWriterWake(a) { // every packet is lost
 			p := vDecode(raw)
 			for _, c := range p.chunks {
 				if x, ok := c.(*chunkPayloadData); ok && x.tsn == first {
